@@ -194,6 +194,40 @@ def fresh_copy(z):
     return type(z).like(z, np.array(np.asarray(z.data), copy=True))
 
 
+# ------------------------------------------------------------------ sessions (histories of calls) and special floats
+def sessions(cases):
+    """TLC-generated two-call histories: (first call, second call) where the second call carries the same
+    list of values on another broadcast layout (spec action Relayout; `prev` = layout of the first call).
+    Both orders of every pair of layouts are generated."""
+    first = {(c["N"], tuple(c["ssh"]), tuple(c["shsh"]), tuple(c["S"])): c for c in cases if c["prev"] == [0]}
+    out = []
+    for c in cases:
+        if c["prev"] != [0]:
+            f = first.get((c["N"], tuple(c["ssh"]), tuple(c["prev"]), tuple(c["S"])))
+            if f is not None:
+                out.append((f, c))
+    return out
+
+
+def first_calls(cases):
+    return [c for c in cases if c["prev"] == [0]]
+
+
+def lattice(S, negzero):
+    """quarter-unit integers -> float64 values; negzero: produced by negating the negated values, so that
+    every zero arrives as -0.0 (what `-shift` gives for a shift array containing 0.0)"""
+    if negzero:
+        return -(np.array([-int(s) for s in S], dtype=np.float64) / 4)
+    return np.array([int(s) for s in S], dtype=np.float64) / 4
+
+
+def merge_tables(a, b):
+    out = {"x": dict(a["x"]), "e": dict(a["e"])}
+    out["x"].update(b["x"])
+    out["e"].update(b["e"])
+    return out
+
+
 RATES = [(1, u.Hz), (1, u.kHz), (7, u.Hz), (800 / 3, u.MHz), (32, u.MHz), (2, u.GHz), (0.5, u.Hz), (1, u.mHz), (10, u.Hz), (3, u.kHz)]
 
 
